@@ -48,8 +48,34 @@ func mkVal(kind string, n int) kval {
 	case "XMLSchemaNonNegativeInteger":
 		return kval{kind, float64(n), n}
 	case "RDFLangString":
-		return kval{kind, map[string]interface{}{"en": fmt.Sprintf("m-%d", n)}, map[string]string{"en": fmt.Sprintf("m-%d", n)}}
+		// one entry, in a language that differs from step to step; every
+		// fifth value has two entries
+		lang := []string{"en", "fr", "de", "ja"}[n%4]
+		j, g := map[string]interface{}{lang: fmt.Sprintf("m-%d", n)}, map[string]string{lang: fmt.Sprintf("m-%d", n)}
+		if n%5 == 0 {
+			j["und"], g["und"] = fmt.Sprintf("u-%d", n), fmt.Sprintf("u-%d", n)
+		}
+		return kval{kind, j, g}
 	}
+	return mkValType(kind, n)
+}
+
+// mergeLang is what SetLanguage calls do to an element: entries are added to
+// the language map the element already holds (any other content goes).
+func mergeLang(old, add kval) kval {
+	j, g := map[string]interface{}{}, map[string]string{}
+	if old.Kind == "RDFLangString" {
+		for k, v := range old.Go.(map[string]string) {
+			j[k], g[k] = v, v
+		}
+	}
+	for k, v := range add.Go.(map[string]string) {
+		j[k], g[k] = v, v
+	}
+	return kval{"RDFLangString", j, g}
+}
+
+func mkValType(kind string, n int) kval {
 	// type kind
 	t := newType(kind)
 	if t == nil {
@@ -357,7 +383,11 @@ func applyOp(pv reflect.Value, model []kval, op c18Op, single bool) ([]kval, str
 			ok, pan = callKind(concrete(o[0]), "Set", op.Val.Kind, single, op.Val.Go)
 		}
 		model = append([]kval{}, model...)
-		model[op.I] = op.Val
+		if op.Generic && op.Val.Kind == "RDFLangString" {
+			model[op.I] = mergeLang(model[op.I], op.Val)
+		} else {
+			model[op.I] = op.Val
+		}
 	}
 	if !ok {
 		return model, "mutator missing: " + op.String()
@@ -736,7 +766,12 @@ func (c *c18) runFunctional(P string, kinds []string, seq []int) {
 			} else if p != nil {
 				w = fmt.Sprintf("setter panicked: %v", p)
 			}
-			cur = &v
+			if generic && v.Kind == "RDFLangString" && cur != nil {
+				m := mergeLang(*cur, v)
+				cur = &m
+			} else {
+				cur = &v
+			}
 		}
 		if w == "" {
 			if cur == nil {
